@@ -2,6 +2,7 @@ package main
 
 import (
 	"strconv"
+	"strings"
 
 	"pault.ag/go/debian/control"
 	"pault.ag/go/debian/dependency"
@@ -137,6 +138,26 @@ func flatSources(s *control.SourceIndex) (J, J) {
 		"acc:BuildDependsIndep": depText(s.GetBuildDependsIndep())}, J{}
 }
 
+// bestDoc: a caller's own struct that embeds control.BestChecksums
+type bestDoc struct {
+	Package string
+	control.BestChecksums
+}
+
+func flatBest(d *bestDoc) (J, J) {
+	s256, s512, best := []interface{}{}, []interface{}{}, []interface{}{}
+	for _, h := range d.ChecksumsSha256 {
+		s256 = append(s256, hashJ(h.FileHash))
+	}
+	for _, h := range d.ChecksumsSha512 {
+		s512 = append(s512, hashJ(h.FileHash))
+	}
+	for _, h := range d.Checksums() {
+		best = append(best, hashJ(h))
+	}
+	return J{"Package": B(d.Package), "ChecksumsSha256": s256, "ChecksumsSha512": s512}, J{"Checksums": best}
+}
+
 // flattenTwice parses once and projects the SAME parsed value twice: accessors must not disturb the fields
 // or each other (a second AbsFiles() call must answer like the first).
 func flattenTwice(kind, text string) (flat, acc, flat2, acc2 J, ok bool) {
@@ -147,6 +168,12 @@ func flattenTwice(kind, text string) (flat, acc, flat2, acc2 J, ok bool) {
 	}()
 	var project func() (J, J)
 	switch kind {
+	case "best":
+		d := &bestDoc{}
+		if err := control.Unmarshal(d, strings.NewReader(text)); err != nil {
+			return J{}, J{}, J{}, J{}, false
+		}
+		project = func() (J, J) { return flatBest(d) }
 	case "dsc":
 		d, err := control.ParseDsc(bufioReader(text), "/srv/pool/x.dsc")
 		if err != nil {
@@ -236,6 +263,13 @@ func flatten(kind, text string) (flat J, acc J, ok bool) {
 		}
 	}()
 	switch kind {
+	case "best":
+		d := &bestDoc{}
+		if err := control.Unmarshal(d, strings.NewReader(text)); err != nil {
+			return J{}, J{}, false
+		}
+		f, a := flatBest(d)
+		return f, a, true
 	case "dsc":
 		d, err := control.ParseDsc(bufioReader(text), "/srv/pool/x.dsc")
 		if err != nil {
@@ -288,7 +322,7 @@ func flatten(kind, text string) (flat J, acc J, ok bool) {
 	return
 }
 
-var sampleDoc = map[string]string{"dsc": "Source: x\n", "changes": "Source: x\n", "srcpara": "Source: x\n", "binpara": "Package: x\n",
+var sampleDoc = map[string]string{"best": "Package: x\n", "dsc": "Source: x\n", "changes": "Source: x\n", "srcpara": "Source: x\n", "binpara": "Package: x\n",
 	"packages": "Package: x\n", "sources": "Package: x\n"}
 
 func execDocs(vec J, out *Writer) {
